@@ -132,6 +132,9 @@ func (f *Frame) subst(t types.Type) types.Type {
 	return t
 }
 
+// substAll substitutes type parameters in t using the frame chain (only the top-level type is handled).
+func (fi *FuncInfo) substAll(fr *Frame, t types.Type) types.Type { return fr.subst(t) }
+
 // outOfSubset is raised (panic) when a construct is not supported.
 type outOfSubset struct{ msg string }
 
